@@ -14,6 +14,7 @@ type GenOptions struct {
 	Foreign    bool // allow differences that forward updates of other sequences, and unknown channels
 	Faults     bool // allow transient failures of difference requests
 	Fresh      bool // allow channels without stored state (met during the run) and access hashes learnt late
+	First      bool // the client's first start: no stored common state, part of the log has already happened
 	Private    bool // channels become inaccessible (CHANNEL_PRIVATE: worker stops, channel forgotten) and accessible again
 	Users      bool // messages refer to users whose access hash may be unknown (the container is dropped, the difference fetched)
 	Seq        bool // number containers (seq / seq_start): they go through the seq box (gaps, duplicates, late arrivals)
@@ -119,6 +120,9 @@ func Gen(r *hc.RNG, o GenOptions) (Scenario, map[int]bool) {
 		s.Log = append(s.Log, e)
 	}
 	pushedPlain := map[int]bool{}
+	if o.First {
+		s.NoState, s.Pre = true, r.Range(0, n/2)
+	}
 	// schedule
 	inOrder := r.Range(20, 90)
 	var delayed []Action
